@@ -139,6 +139,13 @@ def _event(name: str, cls: str, s0: dict, s1: dict, data: object, dt: float) -> 
                         s0['U'], s1['U'], list(range(n)), pi, s0['radixes'], s0['radixes'],
                     )[0]
                     ev['routed'] = True
+            elif name == 'ApplyPlacement' and s0.get('pl') is not None and len(s0['pl']) == s0['n']:
+                # same width: the circuit is re-embedded along the placement
+                cost = refsim.mapped_cost(
+                    s0['U'], s1['U'], s0['pl'], s0['pl'], s0['radixes'], s0['radixes'],
+                )[0]
+            elif cls == 'mapping' and (s0.get('pl') != s1.get('pl') or s0.get('im') != s1.get('im')):
+                cost = None   # no contract written down for this change
             else:
                 cost = refsim.cost1(s0['U'], s1['U'])
         if 'U' in s1 and cls in ('numeric',):
